@@ -2,6 +2,7 @@
 //! reports violations, replays tapes. Single-threaded; the orchestrator (/verif/check) runs
 //! many of these in parallel.
 
+mod alloc;
 mod cli;
 mod gen;
 mod harness;
@@ -202,8 +203,8 @@ fn cmd_run(args: &[String]) {
             }
             let n = seen_classes.entry(v.class.clone()).or_insert(0);
             *n += 1;
-            if *n == 1 && violations.len() < 4 {
-                let (min_tape, replays) = minimise(&prop, f, tier, &sandbox, r.tape.clone(), &v.class, 300, 45.0);
+            if *n == 1 && violations.len() < 3 {
+                let (min_tape, replays) = minimise(&prop, f, tier, &sandbox, r.tape.clone(), &v.class, 300, 20.0);
                 // decode the minimised run for human readers
                 let rr = run_one(&prop, f, tier, &sandbox, Tape::replay(min_tape.clone()), true, true);
                 violations.push(json!({
